@@ -327,6 +327,14 @@ FAMILIES: dict[str, dict] = {
     "two-links-both-modes": {"modes": "both", "links": {"201": {
         "get": L(BY_ID("getUser"), {"id": "$response.body#/id", "query.q": "$response.header.X-Rid"}),
         "put": L(BY_REF("put"), {"path.id": "$response.body#/nested/ids/0"}, {"name": "$response.body#/name", "tag": "second"})}}},
+    # the link body IS the source's response / request body (an object, merged with generated keys); a second link reads a member the
+    # source never had
+    "response-as-body": {"links": {"201": {
+        "put": L(BY_ID("putUser"), {"id": "$response.body#/id"}, "$response.body"),
+        "get": L(BY_ID("getUser"), {"id": "$response.body#/id", "query.q": "$response.body#/extra", "query.via": "$request.body#/extra"})}}},
+    "request-as-body": {"links": {"201": {
+        "put": L(BY_REF("put"), {"path.id": "$response.body#/id"}, "$request.body"),
+        "get": L(BY_ID("getUser"), {"id": "$response.body#/id", "query.q": "$response.body#/extra", "query.via": "$request.body#/extra"})}}},
     # status routing: exact, wildcard and default keys next to documented keys without links
     "status-keys": {"links": {"201": {"exact": L(BY_ID("getUser"), {"id": "$response.body#/id", "query.via": "ex"})},
                               "4XX": {"wild": L(BY_ID("getUser"), {"id": "$response.body#/id", "query.via": "wi"})},
@@ -450,10 +458,10 @@ def run_extract(name: str, fam: dict) -> list[dict]:
     req = requests.Request("POST", base + "/users").prepare()
     container = {"path": "path_parameters", "query": "query", "header": "headers"}
 
-    def record(kl: tuple, tr, status: int, case, position: str, is_json: bool = True) -> dict:
+    def record(kl: tuple, tr, status: int, case, position: str, is_json: bool = True, x: dict | None = None) -> dict:
         ldef = fam["links"][kl[0]][kl[1]]
-        x = {"method": cps("POST"), "url": cps(base + "/users"), "status": status, "path": [], "query": [], "headers": [],
-             "body": enc(case.body), "rheaders": _pairs(rheaders), "rbody": enc(rbody) if is_json else {"t": "text"}}
+        x = x or {"method": cps("POST"), "url": cps(base + "/users"), "status": status, "path": [], "query": [], "headers": [],
+                  "body": enc(case.body), "rheaders": _pairs(rheaders), "rbody": enc(rbody) if is_json else {"t": "text"}}
         params = []
         for pname, expr in (ldef.get("parameters") or {}).items():
             loc, _, n = pname.partition(".") if "." in pname else ("", "", pname)
@@ -488,6 +496,62 @@ def run_extract(name: str, fam: dict) -> list[dict]:
                 out.append(record(a, real[a].extract(plain), status, case2, "alone", is_json=False))
             else:
                 out.append(record(b, real[b].extract(output), status, case, "after-another-link-on-the-same-output"))
+
+    # derivation histories: the real into_step_input on ONE stored output, the same link twice and then every other link of the key.
+    # After each derivation: the derived case = link values over generated ones; the link data recorded in the Transition is exactly
+    # what the expressions denote on the ORIGINAL source; the source request / response bodies are unchanged.
+    import hypothesis
+    from schemathesis.generation import GenerationMode
+    from schemathesis.specs.openapi.stateful import into_step_input
+
+    def draw(strategy):
+        got = []
+
+        @hypothesis.settings(max_examples=1, database=None, derandomize=True, deadline=None, phases=[hypothesis.Phase.generate],
+                             suppress_health_check=list(hypothesis.HealthCheck))
+        @hypothesis.given(strategy)
+        def one(value):
+            got.append(value)
+
+        one()
+        return got[0]
+
+    def case_record(kl: tuple, step, x: dict, position: str) -> dict:
+        ldef = fam["links"][kl[0]][kl[1]]
+        c = step.case
+        got = {"path": c.path_parameters or {}, "query": c.query or {}, "header": {k.lower(): v for k, v in (c.headers or {}).items()}}
+        params = []
+        for pname, expr in (ldef.get("parameters") or {}).items():
+            loc, _, n = pname.partition(".") if "." in pname else ("", "", pname)
+            loc = loc or ("path" if n == "id" else "query")
+            value = got[loc].get(n.lower() if loc == "header" else n)
+            params.append({"name": pname, "expr": cps(expr), "sent": value is not None, "text": cps("" if value is None else str(value))})
+        body = {"has": False, "merge": True, "strict": False, "def": NONE, "sent": NONE}
+        if "requestBody" in ldef:
+            body = {"has": True, "strict": False, "merge": (ldef.get("x-schemathesis") or {}).get("merge_body", True),
+                    "def": enc(ldef["requestBody"]), "sent": enc(c.body) if isinstance(c.body, (dict, list, str, int, bool)) or c.body is None else NONE}
+        return {"kind": "live", "site": "derive", "position": position, "family": name, "link": kl[1], "key": kl[0], "keys": all_keys, "x": x,
+                "params": params, "body": body, "derived": "case %s %s body=%s" % (c.method, c.path, json.dumps(c.body, default=str)[:160]), "tid_ok": True}
+
+    for a in real:
+        if "requestBody" not in fam["links"][a[0]][a[1]]:
+            continue
+        status = status_of(a[0])
+        case = op.Case(body={"name": "ab"}, media_type="application/json")
+        output = StepOutput(Response(status_code=status, headers={k.lower(): [v] for k, v in rheaders}, content=json.dumps(rbody).encode(),
+                                     request=req, elapsed=0.0, verify=False), case)
+        x0 = {"method": cps("POST"), "url": cps(base + "/users"), "status": status, "path": [], "query": [], "headers": [],
+              "body": enc({"name": "ab"}), "rheaders": _pairs(rheaders), "rbody": enc(rbody)}
+        sequence = [a, a] + [b for b in real if b != a and b[0] == a[0]]
+        for n, kl in enumerate(sequence, 1):
+            position = "derivation-%d-from-the-same-source" % min(n, 3)
+            step = draw(into_step_input(target=real[kl].target, link=real[kl], modes=[GenerationMode.POSITIVE])(output))
+            out.append(case_record(kl, step, x0, position))
+            out.append(dict(record(kl, step.transition, status, case, position, x=x0), site="recorded-transition"))
+            out.append({"kind": "same", "site": "source", "position": position, "family": name, "link": kl[1], "what": "response body",
+                        "a": x0["rbody"], "b": enc(output.response.json())})
+            out.append({"kind": "same", "site": "source", "position": position, "family": name, "link": kl[1], "what": "request body",
+                        "a": x0["body"], "b": enc(case.body)})
     return out
 
 
@@ -804,6 +868,8 @@ def run(ctx: Ctx) -> Outcome:
     # (d) link.extract on one stored output: every link alone and after a different link
     extract_records = [r for name, fam in FAMILIES.items() for r in run_extract(name, fam)]
     t_live = time.time() - t2
+    same_records = [r for r in extract_records if r["kind"] == "same"]
+    extract_records = [r for r in extract_records if r["kind"] == "live"]
     live_records = [r for fam in live for r in fam["records"]] + extract_records
 
     # ---- python-side comparison
@@ -827,6 +893,8 @@ def run(ctx: Ctx) -> Outcome:
     records += [{"kind": "link", "link": sh[0], "obs": o} for sh, o in zip(shapes, sobs)]
     n_status = len(statuses) + len(trees) + len(shapes)
     records += [_clean_live(r) for r in live_records]
+    n_live = len(live_records)
+    records += [{"kind": "same", "a": r["a"], "b": r["b"]} for r in same_records]
     jres, tlc_dis = _judge(ctx, records)
     py_dis = {(n, "expr", 0) for n, i in enumerate(chosen, 1) if i in dset} | {(n_expr + 1 + i, "status", 0) for i in dis_status}
     py_dis |= {(n_expr + len(statuses) + 1 + i, "tree", 0) for i in dis_tree}
@@ -834,6 +902,7 @@ def run(ctx: Ctx) -> Outcome:
     tlc_live = {d for d in tlc_dis if d[1].startswith("live")}
     base_n = n_expr + n_status
     py_dis |= {(base_n + 1 + n, what, idx) for n, r in enumerate(live_records) for what, idx in py_live_verdicts(r)}
+    py_dis |= {(base_n + n_live + 1 + n, "source-changed", 0) for n, r in enumerate(same_records) if r["a"] != r["b"]}
     if tlc_dis != py_dis:
         diff = tlc_dis ^ py_dis
         raise tlc.TLCFailure("judge (TLC) and driver disagree on %d observations - machinery inconsistency: %s" % (len(diff), sorted(diff)[:5]))
@@ -895,6 +964,11 @@ def run(ctx: Ctx) -> Outcome:
     for sig, n in emitted.items():
         if n > 3:
             out.notes.append("%d further instances of %s not listed" % (n - 3, sig))
+    for d in sorted(x for x in tlc_dis if x[1] == "source-changed"):
+        r = same_records[d[0] - base_n - n_live - 1]
+        emit("C10:derive:source-changed:%s:%s" % (r["what"].replace(" ", "-"), r["position"]),
+             "family %s: after following link %s the source %s is %s (was %s)" % (r["family"], r["link"], r["what"], json.dumps(dec(r["b"]))[:200],
+                                                                               json.dumps(dec(r["a"]))[:200]), {"kind": "extract", "family": r["family"]})
     for r in extract_records:
         if not r["tid_ok"]:
             emit("C10:extract:transition-of-another-link" + (":" + r["position"] if r["position"] != "alone" else ""),
@@ -988,9 +1062,10 @@ def replay(ctx: Ctx, data: dict) -> Outcome:
                                                                   tree_class(data["tree"])), "nested evaluation: implementation %s" % o["k"], data))
     elif kind in ("extract", "live-foreign"):
         fam = data["family"]
-        recs = run_extract(fam, FAMILIES[fam])
+        every = run_extract(fam, FAMILIES[fam])
+        recs = [r for r in every if r["kind"] == "live"]
         _, dis = _judge(ctx, [_clean_live(r) for r in recs])
-        if dis or any(not r["tid_ok"] for r in recs) or (kind == "live-foreign" and run_live(fam, FAMILIES[fam], ctx.seed + 1, 6)[0]["foreign"]):
+        if dis or any(r["a"] != r["b"] for r in every if r["kind"] == "same") or any(not r["tid_ok"] for r in recs) or (kind == "live-foreign" and run_live(fam, FAMILIES[fam], ctx.seed + 1, 6)[0]["foreign"]):
             out.violations.append(Violation("C10:%s:%s" % (kind, fam), "reproduced", data))
     elif kind == "live-error":
         for f in run_live(data["family"], FAMILIES[data["family"]], ctx.seed + 1, 6):
